@@ -183,7 +183,36 @@ def _operands():
         if mode and mode not in ('all', 'strict', '_expr_arglikes'):
             add(mode, src)
 
+    # multi-byte variant of every operand: identifiers and string contents get a non-ASCII suffix (byte columns != character columns)
+    for mode, src in list(out):
+        v = mb_variant(src)
+
+        if v and v != src:
+            add(mode, v)
+
     return tuple(out)
+
+
+def mb_variant(src):
+    try:
+        toks = list(tokenize.generate_tokens(io.StringIO(src).readline))
+    except (tokenize.TokenError, IndentationError, SyntaxError):
+        return None
+
+    lines = src.split('\n')
+    edits = []
+
+    for t in toks:
+        if t.type == tokenize.NAME and not keyword.iskeyword(t.string) and t.string not in ('match', 'case', 'type', '_') and not t.string.startswith('__'):
+            edits.append((t.end[0] - 1, t.end[1], 'é'))
+        elif t.type == tokenize.STRING and t.start[0] == t.end[0] and t.string[-1] in '\'"' and not t.string.lower().startswith(('b', 'rb', 'br')) and len(t.string) >= 2:
+            q = 3 if t.string.endswith(t.string[-1] * 3) and len(t.string) >= 6 else 1
+            edits.append((t.end[0] - 1, t.end[1] - q, '日'))
+
+    for ln, col, sfx in sorted(edits, reverse=True):
+        lines[ln] = lines[ln][:col] + sfx + lines[ln][col:]
+
+    return '\n'.join(lines)
 
 
 _OPS = None
